@@ -37,6 +37,8 @@ func (c11) Classes() []sim.Class {
 			sim.Class{Name: "one-runtime", Engine: e, Quick: 1200, Thorough: 60000, RunTimeoutSec: 120},
 			sim.Class{Name: "two-runtimes-shared-cache", Engine: e, Quick: 600, Thorough: 30000, RunTimeoutSec: 120},
 			sim.Class{Name: "emscripten-shared-env", Engine: e, Quick: 150, Thorough: 6000, RunTimeoutSec: 120},
+			// every instance from ONE ModuleConfig value (default clocks, random source, streams)
+			sim.Class{Name: "one-config-value", Engine: e, Quick: 400, Thorough: 16000, RunTimeoutSec: 120},
 		)
 	}
 	return cs
@@ -97,6 +99,10 @@ type world struct {
 	sched     bool     // host function yields to the scheduler
 	instErr   error    // an instantiation next to other instances failed
 	populate  int      // entries created in every instance's directory before it starts
+	// oneConfig: every instance of this world is instantiated with this one ModuleConfig VALUE (default
+	// streams, clocks and random source, no mount): what an instantiation derives from the configuration
+	// belongs to the instance, not to the value
+	oneConfig wazero.ModuleConfig
 }
 
 func newRuntime(engine string, cache wazero.CompilationCache, w *world) wazero.Runtime {
@@ -172,8 +178,12 @@ func (w *world) instantiate(rt wazero.Runtime, bin []byte, root string, idx int)
 		}
 		w.compiled[key] = cm
 	}
-	mod, err := rt.InstantiateModule(w.ctx, cm, wazero.NewModuleConfig().WithName("").WithStdout(in.stdout).WithStderr(stderr).
-		WithFSConfig(wazero.NewFSConfig().WithDirMount(in.dir, "/")).WithArgs(fmt.Sprintf("inst%d", idx)))
+	mcfg := wazero.NewModuleConfig().WithName("").WithStdout(in.stdout).WithStderr(stderr).
+		WithFSConfig(wazero.NewFSConfig().WithDirMount(in.dir, "/")).WithArgs(fmt.Sprintf("inst%d", idx))
+	if w.oneConfig != nil {
+		mcfg = w.oneConfig
+	}
+	mod, err := rt.InstantiateModule(w.ctx, cm, mcfg)
 	if err != nil {
 		if w.sched {
 			// next to other instances: judged by the caller (alone, the same instantiation succeeds)
@@ -313,6 +323,10 @@ func (c11) Run(t *tape.Tape, cfg sim.Config) (res sim.Result) {
 	os.MkdirAll(filepath.Join(root, "multi"), 0o755)
 	os.MkdirAll(filepath.Join(root, "lone"), 0o755)
 	w := &world{ctx: ctx, sched: true, populate: populate}
+	oneConfig := cfg.Class == "one-config-value"
+	if oneConfig {
+		w.oneConfig = wazero.NewModuleConfig().WithName("")
+	}
 	if t.Chance(1, 2) {
 		f, err := os.CreateTemp(root, "shared-log-*")
 		if err != nil {
@@ -429,6 +443,9 @@ func (c11) Run(t *tape.Tape, cfg sim.Config) (res sim.Result) {
 			continue
 		}
 		lw := &world{ctx: ctx, populate: populate}
+		if oneConfig {
+			lw.oneConfig = wazero.NewModuleConfig().WithName("")
+		}
 		defer func() {
 			for _, f := range lw.files {
 				f.Close()
